@@ -33,7 +33,7 @@ def trp2 (m : Nat → Nat) (p : Nat × Val) : Nat × Val := (p.1, trf m p.2)
 /-! ## The fragment F2a -/
 
 /-- the global names that are not first-order builtins; the fragment does not mention them -/
-def hoNames : List String := ["map", "apply", "substitute"]
+def hoNames : List String := ["substitute"]
 
 def okSym (x : String) : Bool := !hoNames.contains x
 
@@ -811,8 +811,11 @@ theorem GoodFn.mono {m m' : Nat → Nat} {s s' : St} {rs rs' : Ref.St} {vid : Na
   exact hfc.transfer s.scopes.length hfl hr.1 hk (Nat.le_refl _) hsl (fun q hq => Nat.lt_trans (hch.k_lt q hq) hel)
     (takeToBoundary_chain hch hfle)
 
-/-- the builtins a value of the fragment may hold: the first-order ones and `force` -/
-def okB (n : String) : Prop := n ∈ foBuiltins ∨ n = "force"
+/-- the Go builtins that call back into the machine -/
+def hoB (n : String) : Prop := n = "force" ∨ n = "apply" ∨ n = "map"
+
+/-- the builtins a value of the fragment may hold: the first-order ones and `force`, `apply`, `map` -/
+def okB (n : String) : Prop := n ∈ foBuiltins ∨ hoB n
 
 /-- a value of the VM state is in order: its functions are closure objects with their reference
 closures, its builtins first-order or `force`, no stack mark in it -/
